@@ -143,6 +143,56 @@ structure PushOut where
   res : PushRes
   done : List Nat
 
+/-! The body of `push` after `startGap` / `endGap` are known, in the order of the Go statements.
+Each stage is a small function so that it can be reasoned about on its own. -/
+
+/-- in the replace loop: "Cut the new frame such that the end aligns with the start of the existing frame."
+→ (data, end, wasCut) -/
+def loopCut (lp : LoopOut) (data : Bytes) (start «end» : Nat) : Bytes × Nat × Bool :=
+  if lp.stop = .cut then (data.take (lp.pos - start), lp.pos, true) else (data, «end», false)
+
+/-- "cut the frame, such that it starts at the start of the gap" → (data, start, wasCut) -/
+def frontCut (startsInGap hr : Bool) (sg : Gap) (data : Bytes) (start : Nat) (wasCut : Bool) : Bytes × Nat × Bool :=
+  if startsInGap = false ∧ hr = false then (data.drop (sg.1 - start), sg.1, true) else (data, start, wasCut)
+
+/-- the update of `startGap`: (what remains of it in the list, adjustedStartGapEnd) -/
+def startGapUpdate (sg : Gap) (start «end» : Nat) (hr : Bool) : List Gap × Bool :=
+  if start ≤ sg.1 then
+    (if «end» ≥ sg.2 then [] else [(«end», sg.2)], false)   -- gap deleted / `startGap.Start = end`
+  else if hr = false then ([(sg.1, start)], true)            -- `startGap.End = start`
+  else ([sg], false)
+
+/-- `if !startGapEqualsEndGap { deleteConsecutive(startGapEnd); for gap := startGapNext … }`
+→ (gap list from endGap on, queue, callbacks fired); `none` = nil dereference -/
+def midStage (eq : Bool) (rest : List Gap) (q : Queue) (startGapEnd endGapStart : Nat) :
+    Option (List Gap × Queue × List Nat) :=
+  if eq then some (rest, q, [])
+  else
+    let r := deleteConsecutive (q.length + 1) q startGapEnd
+    match dropMid rest endGapStart r.1 with
+    | none => none
+    | some (gs', q', d) => some (gs', q', r.2 ++ d)
+
+/-- "cut the frame, such that it ends at the end of the gap" → (data, end, wasCut) -/
+def backCut (endsInGap : Bool) (endGapEnd : Nat) (data : Bytes) (start «end» : Nat) (wasCut : Bool) : Bytes × Nat × Bool :=
+  if endsInGap = false ∧ start ≠ endGapEnd ∧ «end» > endGapEnd then (data.take (endGapEnd - start), endGapEnd, true)
+  else (data, «end», wasCut)
+
+/-- the update of `endGap`: (gap inserted after startGap, gap list from endGap on) -/
+def endGapUpdate (eq adjusted : Bool) («end» endGapEnd startGapEnd : Nat) (rest' : List Gap) : List Gap × List Gap :=
+  if «end» = endGapEnd then
+    (if eq then ([], rest') else ([], rest'.tail))             -- the frame covers the whole endGap
+  else if eq = true ∧ adjusted = true then ([(«end», startGapEnd)], rest')   -- the frame split the gap into two
+  else if eq = false then
+    match rest' with
+    | [] => ([], [])
+    | g :: gs => ([], («end», g.2) :: gs)                       -- endGap.Start = end
+  else ([], rest')
+
+/-- "if wasCut && len(data) < MinStreamFrameBufferSize": copy the bytes, release the buffer → (doneCb, fired) -/
+def copyShort (wasCut : Bool) (data : Bytes) (cb : Option Nat) (done : List Nat) : Option Nat × List Nat :=
+  if wasCut = true ∧ data.length < minStreamFrameBufferSize then (none, done ++ cbList cb) else (cb, done)
+
 /-- the part of `push` after `startGap` / `endGap` are known.
 `gaps = pre ++ sg :: rest`, `endGap = (sg :: rest)[k]`. -/
 def pushBody (s : Sorter) (data : Bytes) (start «end» : Nat) (cb : Option Nat)
@@ -150,61 +200,25 @@ def pushBody (s : Sorter) (data : Bytes) (start «end» : Nat) (cb : Option Nat)
   let eq : Bool := k == 0
   let eg : Gap := (sg :: rest).getD k sg
   if (eq = true ∧ «end» ≤ sg.1) ∨ (eq = false ∧ sg.2 ≥ eg.1 ∧ «end» ≤ sg.1) then ⟨s, .dup, []⟩ else
-  let startGapEnd := sg.2
-  let endGapStart := eg.1
-  let endGapEnd := eg.2
   -- replace the frames that start at `start` and are covered by the new one
   let lp := replaceLoop (s.queue.length + 1) s.queue start «end» false
   if lp.stop = .dup then ⟨s, .dup, []⟩ else
-  let hr := lp.replaced
-  let q := lp.q
-  let done := lp.done
-  let (data, «end», wasCut) :=
-    if lp.stop = .cut then (data.take (lp.pos - start), lp.pos, true) else (data, «end», false)
-  -- cut the frame such that it starts at the start of the gap
-  if startsInGap = false ∧ hr = false ∧ sg.1 > «end» then ⟨s, .panic, []⟩ else   -- data[startGap.Start-start:] out of range
-  let (data, start, wasCut) :=
-    if startsInGap = false ∧ hr = false then (data.drop (sg.1 - start), sg.1, true) else (data, start, wasCut)
-  -- startGap
-  let (sg', adjusted) : List Gap × Bool :=
-    if start ≤ sg.1 then
-      (if «end» ≥ sg.2 then [] else [(«end», sg.2)], false)
-    else if hr = false then ([(sg.1, start)], true)
-    else ([sg], false)
-  -- the gaps (and frames) between startGap and endGap
-  let mid : Option (List Gap × Queue × List Nat) :=
-    if eq then some (rest, q, [])
-    else
-      let r := deleteConsecutive (q.length + 1) q startGapEnd
-      match dropMid rest endGapStart r.1 with
-      | none => none
-      | some (gs', q', d) => some (gs', q', r.2 ++ d)
-  match mid with
+  let c1 := loopCut lp data start «end»
+  if startsInGap = false ∧ lp.replaced = false ∧ sg.1 > c1.2.1 then ⟨s, .panic, []⟩ else   -- data[startGap.Start-start:] out of range
+  let c2 := frontCut startsInGap lp.replaced sg c1.1 start c1.2.2
+  let u := startGapUpdate sg c2.2.1 c1.2.1 lp.replaced
+  match midStage eq rest lp.q sg.2 eg.1 with
   | none => ⟨s, .panic, []⟩
   | some (rest', q, dmid) =>
-  let done := done ++ dmid
-  -- cut the frame such that it ends at the end of the gap
-  if endsInGap = false ∧ start ≠ endGapEnd ∧ «end» > endGapEnd ∧ endGapEnd < start then ⟨s, .panic, []⟩ else
-  let (data, «end», wasCut) :=
-    if endsInGap = false ∧ start ≠ endGapEnd ∧ «end» > endGapEnd then (data.take (endGapEnd - start), endGapEnd, true)
-    else (data, «end», wasCut)
-  let (ins, rest'') : List Gap × List Gap :=
-    if «end» = endGapEnd then
-      (if eq then ([], rest') else ([], rest'.tail))        -- the frame covers the whole endGap
-    else if eq = true ∧ adjusted = true then ([(«end», startGapEnd)], rest')  -- the frame split the gap into two
-    else if eq = false then
-      match rest' with
-      | [] => ([], [])
-      | g :: gs => ([], («end», g.2) :: gs)                  -- endGap.Start = end
-    else ([], rest')
-  -- copy short cut frames, release the buffer
-  let (cb, done) : Option Nat × List Nat :=
-    if wasCut = true ∧ data.length < minStreamFrameBufferSize then (none, done ++ cbList cb) else (cb, done)
-  let gaps' := pre ++ sg' ++ ins ++ rest''
+  if endsInGap = false ∧ c2.2.1 ≠ eg.2 ∧ c1.2.1 > eg.2 ∧ eg.2 < c2.2.1 then ⟨s, .panic, []⟩ else   -- data[:endGapEnd-start] out of range
+  let c3 := backCut endsInGap eg.2 c2.1 c2.2.1 c1.2.1 c2.2.2
+  let w := endGapUpdate eq u.2 c3.2.1 eg.2 sg.2 rest'
+  let cp := copyShort c3.2.2 c3.1 cb (lp.done ++ dmid)
+  let gaps' := pre ++ u.1 ++ w.1 ++ w.2
   if gaps'.length > maxStreamFrameSorterGaps then
-    ⟨{ s with queue := q, gaps := gaps' }, .tooManyGaps, done⟩
+    ⟨{ s with queue := q, gaps := gaps' }, .tooManyGaps, cp.2⟩
   else
-    ⟨{ s with queue := qset q start ⟨data, cb⟩, gaps := gaps' }, .ok, done⟩
+    ⟨{ s with queue := qset q c2.2.1 ⟨c3.1, cp.1⟩, gaps := gaps' }, .ok, cp.2⟩
 
 /-- `frameSorter.push` -/
 def Sorter.pushInner (s : Sorter) (data : Bytes) (offset : Nat) (cb : Option Nat) : PushOut :=
